@@ -679,7 +679,11 @@ func (w *world) runPlan(p *plan) (out outcome, rep *report, fail *failure, err e
 			return ""
 		}
 		if m.Setup[kind] != "tcp" {
-			return fmt.Sprintf("a %s packet arrives interleaved (channel %d) although the accepted SETUPs are %v", kind, f.Channel, m.Setup)
+			if m.WasChan[kind][int(f.Channel)] {
+				evid.Class("frames: a track accepted over tcp and later over " + m.Setup[kind] + " is played on its earlier accepted channel (D16, tolerated)")
+				return ""
+			}
+			return fmt.Sprintf("a %s packet arrives interleaved (channel %d) although the accepted SETUPs are %v and no accepted SETUP of that track negotiated this channel", kind, f.Channel, m.Setup)
 		}
 		if int(f.Channel) != m.Chan[kind] {
 			return fmt.Sprintf("a %s RTP packet arrives on interleaved channel %d, the last accepted SETUP of that track negotiated %d-%d", kind, f.Channel, m.Chan[kind], m.Chan[kind]+1)
@@ -709,6 +713,10 @@ func (w *world) runPlan(p *plan) (out outcome, rep *report, fail *failure, err e
 		}
 		for _, d := range dgrams {
 			if d.kind == "" {
+				continue
+			}
+			if m.Setup[d.kind] != "udp" && m.WasPort[d.kind][d.port] {
+				evid.Class("datagrams: a track accepted over udp and later over " + m.Setup[d.kind] + " is played on its earlier accepted client port (D16, tolerated)")
 				continue
 			}
 			if m.Setup[d.kind] != "udp" || m.Port[d.kind] != d.port {
